@@ -105,7 +105,8 @@ pub fn vnorm(v: &SqlValue) -> String {
             if f.fract() == 0.0 && f.abs() < 1.0e7 {
                 format!("I{}", *f as i64)
             } else {
-                format!("f{:08x}", f.to_bits())
+                // widened: Float(1.5) and Double(1.5) are the same value
+                format!("F{:016x}", (*f as f64).to_bits())
             }
         }
         other => format!("{:?}", other),
